@@ -146,6 +146,23 @@ def cacheOf (r : Req) : List Str :=
 
 def ensureSlash (p : Str) : Str := if ['/'].isPrefixOf p then p else '/' :: p
 
+/-! ### documented effects of the text-searching host / path actions, stated on the position that must change
+     (these are what the driver's oracle evaluates; `Props` proves they are what the theorems say) -/
+
+/-- HOST_SUFFIX_REPLACE: only the SUFFIX occurrence of `o` (the last `o.length` characters) is replaced -/
+def specHostSuffixReplace (host o n : Str) : Str :=
+  if o.isSuffixOf host then host.take (host.length - o.length) ++ n else host
+
+/-- PATH_PREFIX_TRIM: only the PREFIX occurrence of `p` (the first `p.length` characters) is removed -/
+def specPathPrefixTrim (path p : Str) : Str :=
+  let rest := if p.isPrefixOf path then path.drop p.length else path
+  if ['/'].isPrefixOf rest then rest else '/' :: rest
+
+/-- PATH_PREFIX_ADD: the prefix goes in front of the whole path (one leading `/` of the path dropped) -/
+def specPathPrefixAdd (path p : Str) : Str :=
+  let body := p ++ (match path with | '/' :: t => t | t => t)
+  if ['/'].isPrefixOf body then body else '/' :: body
+
 inductive Cmd where
   | reqHeaderAdd | reqHeaderSet | reqHeaderDel
   | hostSet | hostSetFromPathPrefix | hostSuffixReplace
